@@ -50,9 +50,8 @@ structure Conn where
   out : List Entry
   deriving DecidableEq, Repr
 
-/-- `asyncio.InvalidStateError`: a direct subclass of `Exception` outside the universe of
-`Common/Py.lean`; shown as its nearest modelled base class -/
-def invalidStateError : PyExc := .exception
+/-- `asyncio.InvalidStateError` (a direct subclass of `Exception`) -/
+def invalidStateError : PyExc := .invalidStateError
 
 /-- caught-exception sets of the `try` statements on the receive path -/
 structure Guards where
